@@ -249,6 +249,11 @@ func (x *Unit) assignStmt(st *State, s *ast.AssignStmt) *State {
 			if obj, ok := x.info.Defs[id].(*types.Var); ok {
 				x.bindClosure(obj, s.Rhs[i])
 			}
+		} else if ok && s.Tok == token.ASSIGN {
+			// `var f func(...)` followed by the one assignment `f = func(...) {... f(...) ...}`: the recursive-closure idiom
+			if obj, ok := x.info.Uses[id].(*types.Var); ok && !x.isPkgLevel(obj) && x.assignedOnceNeverAddressed(obj) {
+				x.bindClosure(obj, s.Rhs[i])
+			}
 		}
 		x.assignLhs(st, s, l, vals[i], x.typeOf(s.Rhs[i]))
 	}
@@ -718,6 +723,32 @@ func (x *Unit) tagsOr(tags []string) []string {
 }
 
 func (x *Unit) havocForLoop(st *State, ms *modSet, loop ast.Stmt) {
+	// loops in the body of a function literal that is called through the variable it is bound to: map writes through a
+	// variable the loop never assigns change that one map object only (see mapWriteTargets)
+	if loop != nil && !x.inLoopRefine {
+		active := false
+		for _, n := range x.litActive {
+			if n > 0 {
+				active = true
+			}
+		}
+		if _, isBlock := loop.(*ast.BlockStmt); active && !isBlock {
+			targets := x.mapWriteTargets(st, loop, ms)
+			if len(targets) > 0 {
+				before := map[string]Term{}
+				for c := range targets {
+					before[c] = x.get(st, c)
+				}
+				x.inLoopRefine = true
+				x.havocForLoop(st, ms, loop)
+				x.inLoopRefine = false
+				for c, ref := range targets {
+					x.set(st, c, Store(before[c], ref, Select(x.get(st, c), ref)))
+				}
+				return
+			}
+		}
+	}
 	for v := range ms.vars {
 		if _, ok := st.vars[v]; ok {
 			vv := v.(*types.Var)
@@ -1167,4 +1198,39 @@ func loopLocksDirectly(loop ast.Stmt) bool {
 		return true
 	})
 	return found
+}
+
+// assignedOnceNeverAddressed: the local variable is assigned by exactly one statement of the enclosing declaration, is declared
+// without a value, and its address is never taken - so every call through it after that statement calls that one value.
+func (x *Unit) assignedOnceNeverAddressed(obj *types.Var) bool {
+	if x.FU == nil || x.FU.Decl == nil || x.FU.Decl.Body == nil {
+		return false
+	}
+	n, bad := 0, false
+	ast.Inspect(x.FU.Decl.Body, func(nd ast.Node) bool {
+		switch nd := nd.(type) {
+		case *ast.AssignStmt:
+			for _, l := range nd.Lhs {
+				if id, ok := ast.Unparen(l).(*ast.Ident); ok && x.info.ObjectOf(id) == obj {
+					n++
+				}
+			}
+		case *ast.ValueSpec:
+			for i, nm := range nd.Names {
+				if x.info.Defs[nm] == obj && i < len(nd.Values) {
+					bad = true
+				}
+			}
+		case *ast.UnaryExpr:
+			if nd.Op == token.AND {
+				if id, ok := ast.Unparen(nd.X).(*ast.Ident); ok && x.info.ObjectOf(id) == obj {
+					bad = true
+				}
+			}
+		case *ast.IncDecStmt, *ast.RangeStmt:
+			_ = nd
+		}
+		return true
+	})
+	return n == 1 && !bad
 }
